@@ -216,6 +216,20 @@ CHECKS = {
         note='Preconditions: non-null keys, update starts from one row per key, append without a unique constraint. Known finding: array/object cells continue downstream as JSON text on sqlite.',
         technique='TLA+ history model of the SQL writer checked with TLC (+ simulation); every exported history replayed against SQLite',
         design='6/C20', specs=['Sql.tla']),
+    'C03': dict(
+        level='model_checking',
+        text='Codec.tla specifies, over code points, the CSV writer as the dumper configures it and a reader driven only by the recorded '
+             'dialect; MC_Codec checks RoundTrip exhaustively on all tables of 2x1 / 1x2 cells of <=3 characters over {a , " LF CR space} '
+             '(thorough: also 2x2 and 3x1 with <=2 characters, 3.4 M tables). Every exported table (quick: 2500) is dumped for real: the '
+             'written bytes must be Codec!EncodeRows, the specification\'s reader applied by TLC to the REAL bytes with the RECORDED dialect '
+             'must give the cells back (CodecTrace.tla), and load() must return the table. Seeded random typed tables (10 field types, '
+             'nulls, 30-digit decimals, >2^63 integers, quotes, delimiters, newlines, non-BMP, fields arriving with foreign lexical '
+             'properties) over the matrix csv/json x path/zip x add_filehash_to_path x temporal_format_property x 1-2 resources x '
+             'alphabetical/reversed/shuffled field order (96 configurations x 3 / x 60): load() must return the typed data that entered the '
+             'dumper and the data file decoded by the spec reader (csv) / json.loads and cast with nothing but the recorded field descriptors must give the same values.',
+        note='Unbounded lexical domains are sampled (exploration strength) and judged through tableschema casts of the recorded descriptors; the quoting/dialect layer is model-checked. Known findings: JSON needs alphabetical field order to load back; CR LF inside a cell loads as LF.',
+        technique='TLA+ byte-level codec model-checked exhaustively; real files decoded by the TLA+ reader in TLC; typed round trips replayed over a configuration matrix',
+        design='6/C03', specs=['Codec.tla', 'MC_Codec.tla', 'CodecTrace.tla']),
 }
 
 NOT_YET = 'check not built yet (build in progress, see DESIGN.md section 10)'
